@@ -7,6 +7,7 @@ package gnet
 
 import (
 	"fmt"
+	"hash/crc32"
 	"net"
 	"strings"
 	"testing"
@@ -21,8 +22,35 @@ type c15addr struct{ network, s string }
 func (a c15addr) Network() string { return a.network }
 func (a c15addr) String() string  { return a.s }
 
+var c15tab = crc32.MakeTable(crc32.IEEE)
+
+// c15forge appends four bytes to prefix so that the IEEE CRC-32 of the result is target.
+func c15forge(prefix []byte, target uint32) []byte {
+	var rev [256]uint32
+	for i := 0; i < 256; i++ {
+		rev[c15tab[i]>>24] = c15tab[i]<<8 ^ uint32(i)
+	}
+	reg := ^crc32.Update(0, c15tab, prefix) // the register after the prefix
+	v := ^target                              // the register wanted after four more bytes
+	for i := 0; i < 4; i++ {
+		v = v<<8 ^ rev[v>>24] // one step backwards over a zero byte
+	}
+	x := v ^ reg
+	return append(append([]byte(nil), prefix...), byte(x), byte(x>>8), byte(x>>16), byte(x>>24))
+}
+
 func c15genAddr(t *rapid.T) net.Addr {
-	switch rapid.IntRange(0, 5).Draw(t, "addrKind") {
+	switch rapid.IntRange(0, 6).Draw(t, "addrKind") {
+	case 6:
+		// an address string whose CRC-32 (what Source-Addr-Hash reduces it to) is a boundary value of
+		// the 32-bit range: a drawn prefix plus four forged bytes (a Unix path may hold any bytes)
+		prefix := rapid.SampledFrom([]string{"", "/tmp/", "@abstract-", "127.0.0.1:"}).Draw(t, "prefix") + rapid.StringN(0, 6, 6).Draw(t, "stem")
+		target := rapid.SampledFrom([]uint32{0, 1, 0x7FFFFFFF, 0x80000000, 0x80000000, 0x80000001, 0xFFFFFFFE, 0xFFFFFFFF}).Draw(t, "crc")
+		name := string(c15forge([]byte(prefix), target))
+		if crc32.ChecksumIEEE([]byte(name)) != target {
+			t.Fatalf("VERIF-INFRA forged string has CRC %#x, want %#x", crc32.ChecksumIEEE([]byte(name)), target)
+		}
+		return &net.UnixAddr{Name: name, Net: "unix"}
 	case 0:
 		return &net.TCPAddr{IP: net.IPv4(byte(rapid.IntRange(0, 255).Draw(t, "a")), byte(rapid.IntRange(0, 255).Draw(t, "b")), 0, 1), Port: rapid.IntRange(0, 65535).Draw(t, "port")}
 	case 1:
